@@ -1335,6 +1335,10 @@ class XMLSchemaBase(XsdValidator, ElementPathMixin[Union[SchemaType, XsdElement]
         except KeyError:
             schema = self
 
+        # With a selection path the XSD element is the one found with the path of
+        # each selected element, that can differ for the elements selected by a path
+        # with wildcards or descendant steps (the same name in different contexts).
+        use_element_path = bool(path) and not schema_path
         if not schema_path:
             schema_path = resource.get_absolute_path(path)
 
@@ -1374,6 +1378,12 @@ class XMLSchemaBase(XsdValidator, ElementPathMixin[Union[SchemaType, XsdElement]
                     prev_ancestors = ancestors[:]
 
             xsd_element = schema.get_element(elem.tag, schema_path, namespaces)
+            if xsd_element is not None and use_element_path and ancestors:
+                element_path = f"/{'/'.join(e.tag for e in ancestors)}/{elem.tag}"
+                _xsd_element = schema.get_element(elem.tag, element_path, namespaces)
+                if _xsd_element is not None:
+                    xsd_element = _xsd_element
+
             if xsd_element is None:
                 if nm.XSI_TYPE in elem.attrib:
                     xsd_element = self.builders.create_element(elem.tag, self)
@@ -1586,8 +1596,10 @@ class XMLSchemaBase(XsdValidator, ElementPathMixin[Union[SchemaType, XsdElement]
         namespace = resource.namespace or namespaces.get('', '')
         schema = self.get_schema(namespace)
 
+        ancestors: list[Element] = []
+        use_element_path = bool(path) and not schema_path
         if path:
-            selector = resource.iterfind(path, namespaces)
+            selector = resource.iterfind(path, namespaces, ancestors=ancestors)
             if not schema_path:
                 schema_path = resource.get_absolute_path(path)
 
@@ -1608,6 +1620,13 @@ class XMLSchemaBase(XsdValidator, ElementPathMixin[Union[SchemaType, XsdElement]
 
         for elem in selector:
             xsd_element = schema.get_element(elem.tag, schema_path, namespaces)
+            if xsd_element is not None and use_element_path and ancestors:
+                # The XSD element is the one found with the path of the selected element
+                element_path = f"/{'/'.join(e.tag for e in ancestors)}/{elem.tag}"
+                _xsd_element = schema.get_element(elem.tag, element_path, namespaces)
+                if _xsd_element is not None:
+                    xsd_element = _xsd_element
+
             if xsd_element is None:
                 if nm.XSI_TYPE in elem.attrib:
                     xsd_element = self.builders.create_element(elem.tag, self)
